@@ -98,7 +98,8 @@ def synthetic_inventory(rng: Rng) -> Tuple[bytes, List[str]]:
         elif kind == 'space':
             lines.append(f'ext spaced name{i} py:class 1 spaced{i}.html -')
         elif kind == 'dollar':
-            lines.append(f'{name} py:function 1 api.html#$ -')
+            # the '$' shorthand stands for the name wherever the location merely ENDS with it
+            lines.append(f'{name} py:function 1 ' + rng.choice(['api.html#$', 'library/x.html#module-$', 'ref/$', 'a.html#pre.$']) + ' -')
         elif kind == 'nonpy':
             lines.append(f'{rng.choice(["some label", "term-x", "cmdoption-v"])}{i} {rng.choice(["std:label", "std:term", "c:function", "js:class", "std:doc"])} -1 page{i}.html#$ Some Title {i}')
         else:
